@@ -10,7 +10,7 @@
 use crate::util::hex;
 use aes::cipher::{BlockCipherEncrypt, KeyInit};
 
-fn aes_enc(key: &[u8; 16], block: &[u8; 16]) -> [u8; 16] {
+pub fn aes_enc(key: &[u8; 16], block: &[u8; 16]) -> [u8; 16] {
     let c = aes::Aes128::new_from_slice(key).unwrap();
     let mut b = aes::cipher::array::Array::from(*block);
     c.encrypt_block(&mut b);
@@ -19,7 +19,7 @@ fn aes_enc(key: &[u8; 16], block: &[u8; 16]) -> [u8; 16] {
     out
 }
 
-fn cmac4(key: &[u8; 16], msg: &[u8]) -> [u8; 4] {
+pub fn cmac4(key: &[u8; 16], msg: &[u8]) -> [u8; 4] {
     use cmac::Mac;
     let mut m = <cmac::Cmac<aes::Aes128> as KeyInit>::new_from_slice(key).unwrap();
     m.update(msg);
